@@ -17,6 +17,10 @@ Oracles:
               the children hash table)
   XPathSan    (sanitizer builds only) no evaluation has a memory error or undefined behaviour other than the listed ones
 
+Repaired deviations: gen() replays the canonical witness of every switch (known_findings.d/xpath.json); a switch whose
+witness is answered as the reference semantics expects is put back to the recommendation in the as-coded model
+(fixed_switches()), so fixes of libyang need no change here and the remaining deviations are still attributed exactly.
+
 The data tree the model sees is the dump of the tree as the library holds it after parsing and validation (default
 nodes included): gen() asks the driver for it (`xpd`) and puts it into the case line; the driver checks it again.
 """
@@ -883,9 +887,36 @@ def get_dumps(pairs):
     return outs
 
 
-def case_line(yang, xml, dump, ctx, e, text=None):
+def case_line(yang, xml, dump, ctx, e, text=None, off="-"):
     text = render(e, abbrev=True) if text is None else text
-    return "xp\t%s\t%s\t%s\t%d\t%s\t%s" % (yang, xml, dump, ctx, hexs(text), sx(e))
+    return "xp\t%s\t%s\t%s\t%d\t%s\t%s\t%s" % (yang, xml, dump, ctx, hexs(text), sx(e), off)
+
+
+_FIXED_SWITCHES = None
+
+
+def fixed_switches():
+    """as-coded switches whose listed deviation the tree under test no longer shows: the replay of the known finding
+    xpath-<switch> answers what the XPath 1.0 reference semantics expects (recorded in known_findings.d/xpath.json).
+    Those switches are put back to the recommendation in the as-coded model, so that a repaired deviation needs no
+    model change and the remaining ones are still attributed exactly. A changed answer that is NOT the expected one
+    keeps the switch on (and shows up as a violation on the cases that exercise it)."""
+    global _FIXED_SWITCHES
+    if _FIXED_SWITCHES is not None:
+        return _FIXED_SWITCHES
+    import json
+    path = os.path.join(vlib.VERIF, "known_findings.d", "xpath.json")
+    ents = [k for k in json.load(open(path)) if k.get("status") == "known" and "replay" in k and
+            "expected (XPath 1.0 reference semantics)" in k.get("witness", {})]
+    exe = vlib.build_driver("t_xpath", "rel")
+    outs, _ = vlib.run_cases(exe, [k["replay"]["line"] for k in ents], timeout=120)
+    off = []
+    for k, o in zip(ents, outs):
+        o = o[:-5] if o.endswith(" A:ok") else o
+        if o == k["witness"]["expected (XPath 1.0 reference semantics)"]:
+            off.append(k["tag"][len("xpath-"):])
+    _FIXED_SWITCHES = ",".join(off) or "-"
+    return _FIXED_SWITCHES
 
 
 FIXED_XML = ('<c xmlns="urn:a"><s>hello</s><n>5</n><d>2.50</d><u>12</u><ll>x</ll><ll>y</ll><ll>5.0</ll><ll>5</ll><ln>7</ln><ln>3</ln>'
@@ -929,6 +960,7 @@ class XPathEval(Comp):
         pairs = [(YANGS, hexs(d)) for d in docs]
         dumps = get_dumps(pairs)
         fixed = [(s, parse(s)) for s in FIXED_EXPRS]
+        off = fixed_switches()
         for di in range(2):
             nodes = parse_dump(dumps[di])
             ctxs = [-1] + [n.idx for n in nodes if (n.name, n.depth) in (("s", 1), ("k", 2), ("in", 2), ("y", 3), ("l1", 1), ("val", 1))][:9]
@@ -936,14 +968,14 @@ class XPathEval(Comp):
                 rel = not s.startswith("/") and not s.startswith("(/")
                 use = ctxs if (rel and di == 0) else ctxs[:2] if di == 0 else ctxs[:1] + ctxs[3:4]
                 for c in use:
-                    L.append(case_line(YANGS, pairs[di][1], dumps[di], c, e, s))
+                    L.append(case_line(YANGS, pairs[di][1], dumps[di], c, e, s, off))
         # 2. generated expressions on generated trees
         per = self.n(tier, 70, 260, scale)
         for k, inst in enumerate(insts):
             y, x = pairs[2 + k]
             d = dumps[2 + k]
             if d.startswith("LOADERR") or d.startswith("CRASH"):
-                L.append("xp\t%s\t%s\t?\t-1\t%s\t%s" % (y, x, hexs("/"), "( root )"))
+                L.append("xp\t%s\t%s\t?\t-1\t%s\t%s\t-" % (y, x, hexs("/"), "( root )"))
                 continue
             nodes = parse_dump(d)
             ctxs = nice_ctx(nodes, rng, 6)
@@ -957,7 +989,7 @@ class XPathEval(Comp):
                     e = targeted(rng, nodes, g)
                 else:
                     e = g.expr(depth)
-                L.append(case_line(y, x, d, rng.choice(ctxs), e, render(e, abbrev=rng.random() < 0.7)))
+                L.append(case_line(y, x, d, rng.choice(ctxs), e, render(e, abbrev=rng.random() < 0.7), off))
         return L
 
     def norm(self, line, out):
@@ -999,6 +1031,10 @@ class XPathEval(Comp):
             # stale hash entries after xpath_pi_text(); modelled for a predicate directly on the text() step, other
             # consumers that call set_sort() (string(), name(), union ...) are attributed by the syntax
             return ("xpath-assert-text-hash", detail)
+        if "( cmp = ( step ( ctx ) 0 child ( name" in f[6] and ("-sibling" in f[6]):
+            # a key predicate whose value walks the sibling axes: lyxp_atomize() sees no dependency on the list instance
+            # and the value is evaluated once (not modelled as coded: needs the schema)
+            return ("xpath-fastpath-context-dependent-rhs", detail)
         if " attribute " in f[6] and ("m" in got.split(":")[-1].split(",") or got.startswith(("F:", "B:", "S:"))):
             # the only metadata in these trees is libyang's internal yang:lyds_tree (sorted (leaf-)lists)
             return ("xpath-attr-internal-meta", detail)
